@@ -22,15 +22,15 @@ P = {
  'C04': dict(tech="Lean 4: kernel-decided certificate check per exported table (decide +kernel) lifted to all pairs by a proved soundness theorem; hand model of the name lookup with correspondence",
              text="For each of the 237 exported settings the kernel evaluates a Boolean check (identity, no duplicates, products with generators, spanning tree, inverses, nuniq/centring bookkeeping, Laue order, metric preservation) and Lemmas/SgSound proves that it implies closure of ALL pairs, inverses, nodup; metric preservation is lifted to every conforming real cell; all 244 names resolve (kernel-decided) and lookup factors through normalisation.",
              note="translations snapped to 24ths (each decimal proved within 5e-7); Laue class checked by order + compatibility + metric preservation; certificates untrusted (re-checked).", ref="DESIGN.md §6 C04"),
- 'C05': dict(tech="Lean 4 theorems about an executable model of genhkl_base/genhkl_all (sysabs translated from the AST, segment tables exported) + line-protocol correspondence on all Laue variants",
-             text="sysabs/sysabs_unique are translated from the Python AST into Lean Int functions; the traversal and orbit expansion are hand-modelled over exact rationals and tied to the code by correspondence (the model reproduces the code incl. its traversal defect). Proved: for ALL 237 settings and ALL integer hkl on the traversed cones, sysabs = 0 iff no operator of the group extinguishes hkl (T5.1; 237 generated theorems re-checked whenever sglib.py or sysabs changes); cascade normal form, traversal soundness (cone membership), emission spec (rows = visited points in the shell that no operator extinguishes), expansion = orbit without repetition, genhkl_all = union of orbits of genhkl_unique rows.",
-             note="PARTIAL: completeness of the traversal (T5.3) is not proved — it is false in general (known finding C05-D2: traversal misses reflections on oblique/rhombohedral cells) and is covered by the brute-force search; cone transversality (T5.4) in progress.", ref="DESIGN.md §6 C05"),
+ 'C05': dict(tech="Lean 4 theorems about an executable model of genhkl_base/genhkl_all (sysabs translated from the AST, segment tables and space-group tables exported, per-setting proofs generated) + line-protocol correspondence on all Laue variants",
+             text="sysabs/sysabs_unique are translated from the Python AST into Lean Int functions; the traversal and orbit expansion are hand-modelled over exact rationals and tied to the code by correspondence (the model reproduces the code incl. its traversal defect). Proved for ALL 237 settings, ALL integer hkl, every conforming metric, shell and (sufficient) fuel: sysabs = 0 iff no operator of the group extinguishes hkl on the traversed cones (T5.1); the loops visit exactly the cone points whose path stays inside the scaled shell and terminate for positive-definite forms (T5.3); the cones are a transversal of the Laue orbits (T5.4); extinction and the metric are invariant under the Laue group; hence genhkl_all returns no extra row (unconditionally), no repeated row, and exactly the allowed reflections of the shell whenever PathClosed holds (proved for orthogonal metrics in 8 Laue classes and for every hexagonal-axes cell); hexagonal and rhombohedral settings of the 7 R groups give the same reflections under the obverse transformation.",
+             note="PARTIAL in one respect only: 'none missing' needs PathClosed, which is FALSE for oblique triclinic/monoclinic and rhombohedral metrics (known finding C05-D2; proved as genhkl_all_incomplete_example about the model and reproduced on the code at every run). numpy's RNG in the de-duplication is a generic-weights hypothesis.", ref="DESIGN.md §6 C05, §11.3"),
  'C06': dict(tech="as C05",
-             text="Proved about the model tied to the code by correspondence: rows sorted by non-decreasing stl, 4th column = stl of the row, min exclusive / max inclusive, rows allowed by sysabs and inside their cone, genhkl_all = union of the families of genhkl_unique rows.",
-             note="PARTIAL: 'exactly one member of every family' is proved only in the soundness direction (T5.4 cone transversality not proved); known finding C06-D2.", ref="DESIGN.md §6 C06"),
+             text="Proved about the model tied to the code by correspondence: rows sorted by non-decreasing stl, 4th column = stl of the row, min exclusive / max inclusive, integrality; two rows of genhkl_unique that are Laue-equivalent are the same row (all 237 settings); under PathClosed genhkl_unique holds exactly one member of every allowed family in the shell and nothing else (genhkl_unique_exact); genhkl_all = union of the families of genhkl_unique rows.",
+             note="'every family has a representative' needs PathClosed (false for oblique cells: known finding C06-D2, same traversal defect as C05-D2).", ref="DESIGN.md §6 C06, §11.3"),
  'C07': dict(tech=TR + "; outer double sum hand-modelled over the exported tables",
-             text="The per-(atom,operation) summand of StructureFactor is traced from the source; the transformation law F(hR)=F(h)exp(-2πi h·t), Friedel and extinction corollaries are theorems about the sum over any operation list that is a group modulo the lattice (which C04 proves for every table).",
-             note="see evidence.obligation_names for _partial items; 6-digit thirds/sixths of the tables enter the oracle tolerance, not the theorems (snapped translations).", ref="DESIGN.md §6 C07"),
+             text="The per-(atom,operation) summand of StructureFactor is traced from the source; the transformation law F(hR)=F(h)exp(-2πi h·t), Friedel and extinction corollaries are theorems about the sum over any operation list that is a group modulo the lattice, instantiated for all 237 tables; with the 6-digit tabulated translations the code actually uses, the law holds to 2π·5e-7·(|h|₁+|hR|₁)·Σ|summand| (sf_transform_tabulated_tables), which is the tolerance of the search oracle.",
+             note="IEEE rounding not modelled.", ref="DESIGN.md §6 C07, §11.3"),
  'C08': dict(tech="as C07",
              text="Theorems: StructureFactor equals the direct sum over the operations for general positions, lattice-shift invariance, linearity in occupancy, F(000) with zero ADP; the direct P1-expansion oracle with exact orbits runs on the implementation.",
              note="see evidence.obligation_names for _partial items (special positions / isotropic-equivalent Uani may be partial).", ref="DESIGN.md §6 C08"),
